@@ -210,6 +210,10 @@ impl Property for P {
             "forced rotations are not issued in async mode".into(),
         ]
     }
+    fn replay_repeats() -> u32 {
+        // the verdict can depend on the OS schedule (background threads)
+        20
+    }
     fn cases(tier: Tier) -> u64 {
         match tier {
             Tier::Quick => 15_000,
